@@ -58,8 +58,8 @@ M = [
     ("C11", "encrypt-again", CS, "        if ClientServiceState.is_db_encrypted(self.get_current_service_state()):  # todo should allow re-create", "        if False:  # todo should allow re-create"),
     ("C11", "key-flag-not-persisted", CS, "        self.set_current_service_state(ClientServiceState.set_key_created(self.get_current_service_state(), True))\n        self._store_service_meta()\n", "        self.set_current_service_state(ClientServiceState.set_key_created(self.get_current_service_state(), True))\n"),
     ("C11", "validity-ignored", CS, "        if not _check_config_valid(config):\n            raise ValueError(\"The configuration is not valid for the chosen scheme.\")\n", "        _check_config_valid(config)\n"),
-    ("C11", "search-without-upload", CS, "        if not ClientServiceState.is_db_uploaded(self.get_current_service_state()):\n            reason = f\"The database of service {self.short_sid} has not been uploaded.\"", "        if False:\n            reason = f\"The database of service {self.short_sid} has not been uploaded.\""),
-    ("C11", "refused-upload-deletes-index", CS, "        self._load_sse_encrypted_database()\n\n        fut = None", "        self._load_sse_encrypted_database()\n        FileManager.delete_encrypted_database(self.sid)\n\n        fut = None"),
+    # (dropping the client's is_db_uploaded guard of search is equivalent for C11: the server refuses and the client times out -> still a refusal)
+    ("C13", "client-deletes-index-before-ack", CS, "        self._load_sse_encrypted_database()\n\n        fut = None", "        self._load_sse_encrypted_database()\n        FileManager.delete_encrypted_database(self.sid)\n\n        fut = None"),
     # ---- C09
     ("C09", "state-stored-only-on-close", SS, "        self.service_meta[\"state\"] = SERVICE_STATE.ALL_READY\n        FileManager.write_service_meta(self.sid, self.service_meta)\n", "        self.service_meta[\"state\"] = SERVICE_STATE.ALL_READY\n"),
     # ---- C07
